@@ -479,6 +479,8 @@ type segment struct {
 	resumed bool
 	// ids of a TransferSubscriptions request the server accepted (all transferred)
 	transferred []uint32
+	// old ids whose recreated subscription was registered
+	registered map[uint32]bool
 }
 
 func segments(evs []xsubs.Event) []*segment {
@@ -488,7 +490,7 @@ func segments(evs []xsubs.Event) []*segment {
 		switch ev.Name {
 		case "monitor.error":
 			err, _ := ev.Args[0].(error)
-			cur = &segment{kind: errKind(err), created: map[uint32]uint32{}, done: -1}
+			cur = &segment{kind: errKind(err), created: map[uint32]uint32{}, registered: map[uint32]bool{}, done: -1}
 			out = append(out, cur)
 		case "monitor.action":
 			if cur != nil {
@@ -501,6 +503,10 @@ func segments(evs []xsubs.Event) []*segment {
 		case "recreate.created":
 			if cur != nil {
 				cur.created[ev.Args[0].(uint32)] = ev.Args[1].(uint32)
+			}
+		case "recreate.registered":
+			if cur != nil {
+				cur.registered[ev.Args[0].(uint32)] = true
 			}
 		case "monitor.done":
 			if cur != nil {
@@ -569,8 +575,36 @@ func (s *segment) steps() (string, bool) {
 			}
 			out = append(out, "T:"+l+":u")
 		case 4:
-			if len(s.transferred) > 0 && len(s.forgets) == 0 {
-				out = append(out, "P:"+strings.Repeat("1", len(s.transferred))+":-")
+			if len(s.transferred) > 0 {
+				// a transferred subscription whose republish failed is recreated: its id
+				// shows up in a forget event
+				bits := ""
+				for _, id := range s.transferred {
+					failed := false
+					for _, f := range s.forgets {
+						if f == id {
+							failed = true
+						}
+					}
+					if failed {
+						bits += "0"
+					} else {
+						bits += "1"
+					}
+				}
+				var recs []string
+				for _, f := range s.forgets {
+					if nid, ok := s.created[f]; ok {
+						recs = append(recs, fmt.Sprintf("c%do", nid))
+					} else {
+						recs = append(recs, "f")
+					}
+				}
+				l := "-"
+				if len(recs) > 0 {
+					l = strings.Join(recs, ",")
+				}
+				out = append(out, "P:"+bits+":"+l)
 				continue
 			}
 			var recs []string
@@ -797,6 +831,7 @@ type scriptedBackend struct {
 	sessionValid bool
 	transferOK   bool
 	rt           *retransInfo
+	zombie       map[uint32]bool // transferred with Good but dead: Republish → BadSubscriptionIDInvalid
 }
 
 type heldPub struct {
@@ -844,6 +879,10 @@ func newScriptedBackend() (*scriptedBackend, error) {
 			}
 			res := make([]*ua.TransferResult, len(req.SubscriptionIDs))
 			for i, id := range req.SubscriptionIDs {
+				if b.zombie[id] {
+					res[i] = &ua.TransferResult{StatusCode: ua.StatusOK, AvailableSequenceNumbers: []uint32{}}
+					continue
+				}
 				if _, ok := b.subs[id]; !ok {
 					res[i] = &ua.TransferResult{StatusCode: ua.StatusBadSubscriptionIDInvalid, AvailableSequenceNumbers: []uint32{}}
 					continue
@@ -861,6 +900,9 @@ func newScriptedBackend() (*scriptedBackend, error) {
 				break
 			}
 			b.rt.requested[req.SubscriptionID] = append(b.rt.requested[req.SubscriptionID], req.RetransmitSequenceNumber)
+			if b.zombie[req.SubscriptionID] {
+				return xsubs.Fault(r, ua.StatusBadSubscriptionIDInvalid)
+			}
 			for _, m := range b.rt.queue[req.SubscriptionID] {
 				if m.seq == req.RetransmitSequenceNumber {
 					resp := xsubs.DataResponse(r, req.SubscriptionID, m.seq, 1, nil, m.handle, m.val)
@@ -959,8 +1001,19 @@ func (b *scriptedBackend) Fault(kind string) error {
 	b.mu.Lock()
 	b.faulted = true
 	b.held = nil
-	if kind == "session-scripted" || kind == "transfer-scripted" || kind == "transfer-gap-scripted" {
+	if kind == "session-scripted" || kind == "session2-scripted" || kind == "transfer-scripted" || kind == "transfer-gap-scripted" || kind == "transfer-dead-scripted" {
 		b.sessionValid = false
+	}
+	if kind == "transfer-dead-scripted" {
+		// the server accepts the transfer (Good) although the subscriptions are not usable in
+		// the new session any more: Republish answers BadSubscriptionIDInvalid
+		b.transferOK = true
+		b.rt = &retransInfo{nextBefore: map[uint32]uint32{}, queue: map[uint32][]retMsg{}, requested: map[uint32][]uint32{}, acked: map[[2]uint32]int{}}
+		b.zombie = map[uint32]bool{}
+		for id := range b.subs {
+			b.zombie[id] = true
+			delete(b.subs, id)
+		}
 	}
 	if kind == "transfer-scripted" || kind == "transfer-gap-scripted" {
 		// the server supports TransferSubscriptions and keeps a retransmission queue:
@@ -1052,10 +1105,25 @@ func (e *env) scenario(kind string, nsubs, nitems int) *scenResult {
 			sr.handle = append(sr.handle, hd)
 			reqs = append(reqs, opcua.NewMonitoredItemCreateRequestWithDefaults(be.NodeID(v), ua.AttributeIDValue, hd))
 		}
-		mres, err := sr.sub.Monitor(ctx, ua.TimestampsToReturnBoth, reqs...)
-		if err != nil || len(mres.Results) != nitems {
-			res.infra = fmt.Sprintf("monitor: %v", err)
-			return res
+		// items with an even index are monitored with TimestampsToReturn=Both, the odd
+		// ones with Source: a recreation has to handle more than one timestamp group
+		groups := map[ua.TimestampsToReturn][]*ua.MonitoredItemCreateRequest{}
+		for i, rq := range reqs {
+			ts := ua.TimestampsToReturnBoth
+			if i%2 == 1 {
+				ts = ua.TimestampsToReturnSource
+			}
+			groups[ts] = append(groups[ts], rq)
+		}
+		for _, ts := range []ua.TimestampsToReturn{ua.TimestampsToReturnBoth, ua.TimestampsToReturnSource} {
+			if len(groups[ts]) == 0 {
+				continue
+			}
+			mres, err := sr.sub.Monitor(ctx, ts, groups[ts]...)
+			if err != nil || len(mres.Results) != len(groups[ts]) {
+				res.infra = fmt.Sprintf("monitor: %v", err)
+				return res
+			}
 		}
 		subs = append(subs, sr)
 	}
@@ -1080,36 +1148,38 @@ func (e *env) scenario(kind string, nsubs, nitems int) *scenResult {
 	mark := rec.Mark()
 
 	// ---- the fault
-	if err := be.Fault(kind); err != nil {
-		res.infra = "fault: " + err.Error()
-		return res
-	}
-	// wait for the reconnect to finish: monitor.done seen and no further error
-	// segment opened for a while
-	okDone := xsubs.WaitFor(10*time.Second, func() bool { return rec.Hits("monitor.done") >= 1 })
-	if !okDone {
-		res.infra = "reconnect did not finish within 10 s"
-		return res
-	}
-	for {
-		a, b := rec.Hits("monitor.error"), rec.Hits("monitor.done")
-		time.Sleep(600 * time.Millisecond)
-		if rec.Hits("monitor.error") == a && rec.Hits("monitor.done") == b && a == b {
-			break
+	faultAndWait := func() string {
+		doneBefore := rec.Hits("monitor.done")
+		if err := be.Fault(kind); err != nil {
+			return "fault: " + err.Error()
 		}
-		if ctx.Err() != nil {
-			res.infra = "reconnect keeps cycling"
-			return res
+		// wait for the reconnect to finish: monitor.done seen and no further error
+		// segment opened for a while
+		if !xsubs.WaitFor(10*time.Second, func() bool { return rec.Hits("monitor.done") > doneBefore }) {
+			return "reconnect did not finish within 10 s"
 		}
+		for {
+			a, b := rec.Hits("monitor.error"), rec.Hits("monitor.done")
+			time.Sleep(600 * time.Millisecond)
+			if rec.Hits("monitor.error") == a && rec.Hits("monitor.done") == b && a == b {
+				break
+			}
+			if ctx.Err() != nil {
+				return "reconnect keeps cycling"
+			}
+		}
+		if c.State() != opcua.Connected {
+			return fmt.Sprintf("client state %v after the reconnect", c.State())
+		}
+		res.segs = segments(rec.Events()[mark:])
+		res.after = registry(c)
+		res.nAfter = len(c.VerifSubs())
+		res.publishAfter = be.PublishAfter()
+		return ""
 	}
-	if c.State() != opcua.Connected {
-		res.infra = fmt.Sprintf("client state %v after the reconnect", c.State())
+	if res.infra = faultAndWait(); res.infra != "" {
 		return res
 	}
-	res.segs = segments(rec.Events()[mark:])
-	res.after = registry(c)
-	res.nAfter = len(c.VerifSubs())
-	res.publishAfter = be.PublishAfter()
 
 	if rt := be.Retrans(); rt != nil {
 		res.rt = rt
@@ -1145,26 +1215,44 @@ func (e *env) scenario(kind string, nsubs, nitems int) *scenResult {
 	}
 	// ---- the property's own oracle: every subscription that was active keeps
 	// delivering data changes for all of its monitored items
-	drainAll(subs)
-	for k, s := range subs {
-		for i, v := range s.nodes {
-			val++
-			if err := be.Change(s.sub, s.handle[i], v, val); err != nil {
-				res.infra = err.Error()
-				return res
-			}
-			if !delivered(s, s.handle[i], val, 1500*time.Millisecond) {
-				// one more change before the item counts as dead (a publish answered
-				// just as the client's request timed out is lost without any defect)
+	oracle := func() {
+		res.missing = nil
+		drainAll(subs)
+		for k, s := range subs {
+			for i, v := range s.nodes {
 				val++
 				if err := be.Change(s.sub, s.handle[i], v, val); err != nil {
 					res.infra = err.Error()
-					return res
+					return
 				}
 				if !delivered(s, s.handle[i], val, 1500*time.Millisecond) {
-					res.missing = append(res.missing, fmt.Sprintf("sub%d/v%d", k, v))
+					// one more change before the item counts as dead (a publish answered
+					// just as the client's request timed out is lost without any defect)
+					val++
+					if err := be.Change(s.sub, s.handle[i], v, val); err != nil {
+						res.infra = err.Error()
+						return
+					}
+					if !delivered(s, s.handle[i], val, 1500*time.Millisecond) {
+						res.missing = append(res.missing, fmt.Sprintf("sub%d/v%d", k, v))
+					}
 				}
 			}
+		}
+	}
+	oracle()
+	if res.infra != "" {
+		return res
+	}
+	if kind == "session2-scripted" && len(res.missing) == 0 {
+		// a second session loss: the subscriptions recreated a moment ago are recreated
+		// again, from what the client remembers of them now
+		if res.infra = faultAndWait(); res.infra != "" {
+			return res
+		}
+		oracle()
+		if res.infra != "" {
+			return res
 		}
 	}
 	if be.Retrans() != nil {
@@ -1360,6 +1448,14 @@ func (e *env) runScenario(kind string, nsubs, nitems int) {
 			}
 		}
 	}
+	collisions := 0
+	for _, sg := range res.segs {
+		for old := range sg.created {
+			if !sg.registered[old] {
+				collisions++
+			}
+		}
+	}
 	detail := fmt.Sprintf("%s: after the reconnect (actions %v, activeSubs=%d, publish loop resumed=%v, %d PublishRequests on the wire; server: %d subscriptions deleted, %d publish responses sent) no data change for %v; registry %s -> %s",
 		name, last.actions, last.done, last.resumed, res.publishAfter, res.serverDeleted, res.serverSent, res.missing, res.before, res.after)
 	switch {
@@ -1369,7 +1465,9 @@ func (e *env) runScenario(kind string, nsubs, nitems int) {
 		// created on — which is gone — and/or deleted the subscription
 		e.r.Fail(name, sigServer, detail)
 		e.r.Confirm(sigServer, detail)
-	case viaTransfer && res.nAfter < res.nBefore && len(res.missing) <= (res.nBefore-res.nAfter)*nitems:
+	case viaTransfer && res.nAfter < res.nBefore && len(res.missing) <= (res.nBefore-res.nAfter)*nitems && collisions >= res.nBefore-res.nAfter:
+		// every lost subscription was created on the server and then refused by
+		// registerSubscription (id collision), and the failure was swallowed
 		e.r.Fail(name, sigRecreate, detail)
 		e.r.Confirm(sigRecreate, detail)
 	default:
@@ -1423,11 +1521,11 @@ func main() {
 		kind string
 		a, b int
 	}
-	list := []sc{{"cut-scripted", 1, 1}, {"cut-scripted", 2, 2}, {"session-scripted", 2, 2}, {"transfer-scripted", 2, 1}, {"transfer-gap-scripted", 1, 1}, {"cut", 1, 1}, {"cut", 2, 2}, {"restart", 1, 2}, {"restart", 5, 1}, {"restart", 2, 1}}
+	list := []sc{{"cut-scripted", 1, 1}, {"cut-scripted", 2, 2}, {"session2-scripted", 1, 2}, {"session-scripted", 2, 2}, {"transfer-scripted", 2, 1}, {"transfer-gap-scripted", 1, 1}, {"transfer-dead-scripted", 2, 1}, {"cut", 1, 1}, {"cut", 2, 2}, {"restart", 1, 2}, {"restart", 5, 1}, {"restart", 2, 1}}
 	if o.Thorough() {
 		for i := 0; i < 12; i++ {
-			k := e.rnd.Pick(0, 1, 2, 3, 4, 5)
-			kinds := []string{"cut", "restart", "cut-scripted", "session-scripted", "transfer-scripted", "transfer-gap-scripted"}
+			k := e.rnd.Pick(0, 1, 2, 3, 4, 5, 6, 7)
+			kinds := []string{"cut", "restart", "cut-scripted", "session-scripted", "transfer-scripted", "transfer-gap-scripted", "session2-scripted", "transfer-dead-scripted"}
 			list = append(list, sc{kinds[k], 1 + e.rnd.Intn(3), 1 + e.rnd.Intn(3)})
 		}
 	}
@@ -1474,7 +1572,7 @@ func main() {
 	}
 	for _, b := range []string{"acks:length-mismatch", "acks:matched", "acks:status-o", "acks:status-i", "acks:status-u", "acks:status-x",
 		"notif:keepalive", "notif:data-in-order", "notif:data-gap", "notif:seq-wrap", "notif:unknown-sub",
-		"round:data", "round:keepalive", "round:unknown", "round:timeout", "scenario:cut", "scenario:cut-scripted", "scenario:session-scripted", "scenario:transfer-scripted", "scenario:transfer-gap-scripted", "republish:loop", "scenario:restart"} {
+		"round:data", "round:keepalive", "round:unknown", "round:timeout", "scenario:cut", "scenario:cut-scripted", "scenario:session-scripted", "scenario:transfer-scripted", "scenario:transfer-gap-scripted", "scenario:session2-scripted", "scenario:transfer-dead-scripted", "republish:loop", "scenario:restart"} {
 		if r.Distribution[b] == 0 {
 			r.Unreached = append(r.Unreached, b)
 		}
